@@ -1,7 +1,7 @@
 (** Dispatch2.v — entry points of the models added after Dispatch.v (DER/token keys, hashes, key blinding, ...).
     [dispatch2] is what the OCaml runner calls; unknown names fall through to [dispatch]. *)
 From Coq Require Import Strings.String.
-From PatVerif Require Import Base.GoSem Model.Dispatch Model.TokenKey Model.Codecs Model.Derive Model.Ed25519 Model.TokenVerify Model.Ecdsa Model.BatchIssuer Base.Mem Base.Conc Model.Frontends Model.RateLimited.
+From PatVerif Require Import Base.GoSem Model.Dispatch Model.TokenKey Model.Codecs Model.Derive Model.Ed25519 Model.Fe Model.TokenVerify Model.Ecdsa Model.BatchIssuer Base.Mem Base.Conc Model.Frontends Model.RateLimited.
 Open Scope N_scope.
 
 Definition out_z (z : Z) : list (list byte) :=
@@ -179,6 +179,32 @@ Definition dispatch_fin (name : list byte) (a : list (list byte)) : option (list
           | Ok (ts, _) => [st_ok; concat (map enc_token ts)] | Err => [st_none] | Panic => [st_panic] end)
   else None.
 
+(** the field arithmetic of Model/Fe.v; elements travel as five 8-byte little-endian limbs *)
+Definition fe_flag (b : bool) : list byte := if b then [x01] else [x00].
+Definition dispatch_fe (name : list byte) (a : list (list byte)) : option (list (list byte)) :=
+  let x := fe_of_bytes40 (arg a 0) in let y := fe_of_bytes40 (arg a 1) in
+  if is name "fe_mul" then Some [fe_to_bytes40 (fe_mul x y)]
+  else if is name "fe_square" then Some [fe_to_bytes40 (fe_square x)]
+  else if is name "fe_add" then Some [fe_to_bytes40 (fe_add x y)]
+  else if is name "fe_sub" then Some [fe_to_bytes40 (fe_sub x y)]
+  else if is name "fe_neg" then Some [fe_to_bytes40 (fe_neg x)]
+  else if is name "fe_carry" then Some [fe_to_bytes40 (fe_carry x)]
+  else if is name "fe_reduce" then Some [fe_to_bytes40 (fe_reduce x)]
+  else if is name "fe_bytes" then Some [fe_bytes x]
+  else if is name "fe_set_bytes" then Some [fe_to_bytes40 (fe_set_bytes (arg a 0))]
+  else if is name "fe_invert" then Some [fe_to_bytes40 (fe_invert x)]
+  else if is name "fe_pow22523" then Some [fe_to_bytes40 (fe_pow22523 x)]
+  else if is name "fe_sqrt_ratio" then
+    let '(r, sq) := fe_sqrt_ratio x y in Some [fe_to_bytes40 r; fe_flag sq]
+  else if is name "fe_mult32" then Some [fe_to_bytes40 (fe_mult32 x (le_val (arg a 1)))]
+  else if is name "fe_equal" then Some [fe_flag (fe_equal x y)]
+  else if is name "fe_is_negative" then Some [fe_flag (N.eqb (fe_is_negative x) 1)]
+  else if is name "fe_absolute" then Some [fe_to_bytes40 (fe_absolute x)]
+  else if is name "fe_select" then Some [fe_to_bytes40 (fe_select x y (flag (arg a 2)))]
+  else if is name "fe_swap" then
+    let c := flag (arg a 2) in Some [fe_to_bytes40 (fe_select y x c); fe_to_bytes40 (fe_select x y c)]
+  else None.
+
 Definition dispatch2 (name : list byte) (a : list (list byte)) : list (list byte) :=
   match dispatch_tokenkey name a with Some r => r | None =>
   match dispatch_derive name a with Some r => r | None =>
@@ -188,4 +214,5 @@ Definition dispatch2 (name : list byte) (a : list (list byte)) : list (list byte
   match dispatch_batch name a with Some r => r | None =>
   match dispatch_mem name a with Some r => r | None =>
   match dispatch_conc name a with Some r => r | None =>
-  match dispatch_fin name a with Some r => r | None => dispatch name a end end end end end end end end end.
+  match dispatch_fin name a with Some r => r | None =>
+  match dispatch_fe name a with Some r => r | None => dispatch name a end end end end end end end end end end.
